@@ -46,7 +46,10 @@ CodePrefixOk(conn, d, ps, n) ==
   /\ Prefix(ps, n)
   /\ \A p \in ps : p[1] < n => ~\E q \in ps : AbsBefore(conn, d, q, p) /\ q[1] > p[1]     \* nothing later is sorted before a head piece
 \* classes of input on which the code's report can differ from the design's
-GapInHead(conn, d, ps) == ~Prefix(ps, conn.hlen[d])
+\* the recorded defect (no contiguity check) concerns buffers WITH A HOLE: what is held does not form one run from offset 0, and the head
+\* is not completely there.  A report on a gap-free but incomplete head is not that defect.
+MaxEnd(ps) == IF ps = {} THEN 0 ELSE CHOOSE m \in {p[1] + p[2] : p \in ps} : \A p \in ps : p[1] + p[2] <= m
+GapInHead(conn, d, ps) == ~Prefix(ps, conn.hlen[d]) /\ ~Prefix(ps, MaxEnd(ps))
 WrapInStream(conn, d) == conn.wrap[d] >= 0
 
 RECURSIVE Run(_, _, _, _)
